@@ -8,8 +8,9 @@ C12 spec — written from the property text only:
  bytes never reveal the state plaintext."
 
 Reading (DESIGN §7.3): a *modified / re-encoded* token is any wire text not byte-identical to a minted token.
-The call token is an input of the decision only when the server consults it (call-state cache miss); on a hit the
-call is the one the server itself cached for that authenticated call id and identity.
+The call token's *text* is an input of the decision only when the server consults it (call-state cache miss); on a hit
+the call is the one the server itself cached for that authenticated call id and identity.  "Within the token TTL"
+holds for the stream's call token either way: a cached call must not be served after its token has expired.
 -/
 namespace VgiVerif.C12.Spec
 
@@ -34,7 +35,7 @@ def ServedOnlyIfMinted {Id : Type} (cursors calls : List (Minted Id)) (key : Nat
     (cursorText : List UInt8) (callText : Option (List UInt8)) (callConsulted : Bool) : Prop :=
   ∃ callId, Genuine cursors key who ttl now cursorText callId ∧
     (callConsulted = true → ∃ c, callText = some c ∧ Genuine calls key who ttl now c callId) ∧
-    (callConsulted = false → ∃ m ∈ calls, m.key = key ∧ m.who = who ∧ m.callId = callId)
+    (callConsulted = false → ∃ m ∈ calls, m.key = key ∧ m.who = who ∧ m.callId = callId ∧ WithinTtl ttl now m.issuedAt)
 
 /-- the effects the property forbids before a rejection -/
 inductive Forbidden where
